@@ -1,0 +1,1 @@
+//! Hooks for property C36 (empty unless needed).
